@@ -184,9 +184,10 @@ let do_gen rest =
     let asu = List.mapi (fun i _ -> x_asu_rule g (nat_of_int i)) g in
     let (reached, counts) = x_count_rules g in
     let bs l = String.concat "" (List.map (fun b -> if b then "1" else "0") l) in
-    print_endline (Printf.sprintf "gen %s :: inline=%s asu=%s reached=%s counts=%s wf=%d good=%d" gid (bs it) (bs asu) (bs reached)
+    print_endline (Printf.sprintf "gen %s :: inline=%s asu=%s reached=%s counts=%s wf=%d good=%d swok=%d" gid (bs it) (bs asu) (bs reached)
                      (String.concat "," (List.map (fun c -> string_of_int (int_of_nat c)) counts))
-                     (if x_wf_auto g then 1 else 0) (if x_good_grammar_b g then 1 else 0))
+                     (if x_wf_auto g then 1 else 0) (if x_good_grammar_b g then 1 else 0)
+                     (if x_swok_b g (inl = "1") then 1 else 0))
   | _ -> failwith "gen: args"
 
 (* diag <id> (rg (def name expr) ...) *)
